@@ -1,6 +1,12 @@
 /- line-protocol driver for C13: `drv_c13 <sub-command>` reads operations on stdin, prints one canonical line per operation.
    Core Lean only (nothing imported here may import Mathlib, or the executable will not link). -/
+import ChibiVerif.Driver.LexTotalCmd
 
 def main (args : List String) : IO UInt32 := do
-  IO.eprintln s!"drv_c13: no sub-commands yet (args {args})"
-  return 2
+  match args with
+  | ["lextotal"] =>
+    ChibiVerif.Driver.LexTotalCmd.run (← IO.getStdin) (← IO.getStdout)
+    return 0
+  | _ =>
+    IO.eprintln s!"drv_c13: unknown sub-command {args} (known: lextotal)"
+    return 2
